@@ -112,8 +112,15 @@ def case_ndblocks(ctx, inp):
     axes = _axes_arg(chunks, depth, bnd)
     fills = _fill(bnd)
     P = _padded(x, depth, bnd)
+    # the array overlap_internal is applied to (after boundaries()), its blocks and the shift of the block numbers
+    from dask.array.overlap import boundaries
+    x2 = d if all(k == "none" for k in bnd) else boundaries(d, ddict, bdict)
+    x2v = np.asarray(x2.compute(scheduler="sync"))
+    x2off = [[sum(c[:i]) for i in range(len(c) + 1)] for c in x2.chunks]
+    dims2 = list(x2.numblocks)
+    shift = [1 if (bnd[ax] != "none" and _lr(depth[ax])[0] > 0) else 0 for ax in range(nd)]
     for idx in itertools.product(*[range(len(c)) for c in chunks]):
-        ext, rect, blk, trim, rspec, padded = unsym(ctx.lean(Sym("ndoverlap"), axes, list(idx)))
+        ext, rect, blk, trim, rspec, padded, pieces = unsym(ctx.lean(Sym("ndoverlap"), axes, list(idx)))
         real = np.asarray(g.blocks[idx].compute(scheduler="sync"))
         if ext == "none" or ext is None:
             ctx.disagree("ndOverlapBlock: no block", None, list(idx))
@@ -124,6 +131,9 @@ def case_ndblocks(ctx, inp):
         exp = _gather(x, ext, fills)
         if real.shape != exp.shape or (real != exp).any():
             ctx.disagree("extended block content (product of the 1-d models)", [list(idx), exp.tolist()], [list(idx), real.tolist()])
+            return
+        ctx.eq("pieces concatenated per axis = the extended block (proved)", [[v for seg in segs for v in seg] for segs in pieces], ext)
+        if not _pieces_vs_real(ctx, x2v, x2off, dims2, shift, ddict, idx, pieces, x, fills):
             return
         if not big:
             continue
@@ -161,6 +171,43 @@ def case_ndblocks(ctx, inp):
         _branches(ctx, "ndblocks", chunks, depth, bnd)
     else:
         ctx.branch("ndblocks-chunk-smaller-than-depth")
+
+
+def _pieces_vs_real(ctx, x2v, x2off, dims2, shift, ddict, idx, pieces, x, fills):
+    """the real task of one extended block: `_expand_keys_around_center` (which neighbours, in which grid) and
+    `fractional_slice` (how each neighbour is cut) evaluated on the padded array's blocks, piece by piece, vs the model's
+    per-axis pieces (their product: a piece with two non-centre coordinates comes from a diagonal neighbour)"""
+    import numpy as np
+    from dask.layers import _expand_keys_around_center, fractional_slice
+    key = ("x",) + tuple(b + s for b, s in zip(idx, shift))
+    seq, shp = _expand_keys_around_center(key, dims=dims2, name="g", axes=ddict)
+    if list(shp) != [len(segs) for segs in pieces]:
+        ctx.disagree("_expand_keys_around_center: grid of pieces", [len(segs) for segs in pieces], list(shp))
+        return False
+    grid = list(itertools.product(*[range(len(segs)) for segs in pieces]))
+    if len(seq) != len(grid):
+        ctx.disagree("_expand_keys_around_center: number of pieces", len(grid), len(seq))
+        return False
+    diag = False
+    for k, ps in zip(seq, grid):
+        fs = fractional_slice(k, ddict)
+        if fs is False:
+            ctx.disagree("fractional_slice rejects a key _expand_keys_around_center produced", list(ps), [str(t) for t in k])
+            return False
+        if fs == k:
+            rounded, index = k[1:], tuple(slice(None) for _ in k[1:])
+        else:
+            rounded, index = fs[1][1:], fs[2]
+        blk = x2v[tuple(slice(x2off[ax][r], x2off[ax][r + 1]) for ax, r in enumerate(rounded))][index]
+        exp = _gather(x, [pieces[ax][p] for ax, p in enumerate(ps)], fills)
+        if blk.shape != exp.shape or (blk != exp).any():
+            ctx.disagree("piece of the concatenate_shaped task", [list(ps), exp.tolist()], [list(ps), blk.tolist()])
+            return False
+        if sum(1 for ax, r in enumerate(rounded) if r != key[1 + ax]) >= 2:
+            diag = True
+    if diag:
+        ctx.branch("ndblocks-diagonal-neighbour-piece")
+    return True
 
 
 def _wsum(W, depth):
